@@ -265,6 +265,9 @@ class Interp:
             fn = f.__func__
             if isinstance(fn, IFunc) or self.node_of(fn) is not None:
                 return self.call_value(fn, [f.__self__] + list(args), kwargs)
+            mm = _MODELS.get(id(fn))
+            if mm is not None:
+                return mm(self, f, args, kwargs)
             if has_sym(args) or has_sym(kwargs):
                 r = self._model_call(f, args, kwargs)
                 if r is not _NOMODEL:
